@@ -53,7 +53,9 @@ func cdxProj(n *sbom.Node) map[string]string {
 	for _, e := range n.ExternalReferences {
 		hh := []string{}
 		for a, v := range e.Hashes {
-			hh = append(hh, fmt.Sprintf("%d=%s", a, v))
+			if cdxAlgoSet[a] { // an algorithm CycloneDX has no name for cannot survive; the rest of the reference must
+				hh = append(hh, fmt.Sprintf("%d=%s", a, v))
+			}
 		}
 		ers = append(ers, fmt.Sprintf("%d|%s|%s|%s", e.Type, e.Url, e.Comment, sortedJoin(hh)))
 	}
